@@ -145,6 +145,9 @@ func (t *Directive) hasDirLoop(hits map[string]bool) []string {
 					return append([]string{t.Name() + "." + a.Name()}, path...)
 				}
 			}
+			// Only the directives on the way here form a loop, one that is
+			// used twice without using itself does not.
+			delete(hits, name)
 		}
 	}
 	return nil
